@@ -121,6 +121,15 @@ func ruleWriteGates(c *Ctx) {
 			return
 		}
 		k := &cls{name: n, fn: fn, ss: ss, write: map[string]bool{}, read: map[string]bool{}}
+		hasDefault := false
+		for _, cl := range ss.Clauses {
+			if cl.IsDefault {
+				hasDefault = true
+			}
+		}
+		if !hasDefault {
+			c.bad("script/"+n+"/default", ss.Stmt.Pos(), "the script class switch of %s has no default arm: commands it does not list fall through to the dispatch ungated", n)
+		}
 		for _, cl := range ss.Clauses {
 			if cl.IsDefault {
 				lc := c.interpretLockArm(fn, ss, cl)
